@@ -79,11 +79,14 @@ class Side:
     bytearray *mirror* of the memory is kept in step with them, which makes whole-memory
     comparison with the C side (bytearrays) a memcmp.  C side: stores are undone from the
     Python side's log and verified by the next comparison."""
-    def __init__(self, kind, machine, with_tracer):
+    def __init__(self, kind, machine, with_tracer, fast=False):
         from skoolkit.pagingtracer import Memory
         self.kind = kind
         self.machine = machine
         self.is_c = kind in ('c', 'ccmio')
+        # fast=True: the Python simulators' accelerated DJNZ / LDIR / LDDR paths (what trace.py and tap2sna configure
+        # when nothing needs to observe single instructions); the C simulators have no such option
+        fastcfg = {'fast_djnz': True, 'fast_ldir': True} if fast and not self.is_c else {}
         self.log = []
         self.applied = 0
         if machine == '48K':
@@ -96,7 +99,7 @@ class Side:
                 mem.log = self.log
                 mem.tag = 0
                 self.mirror = bytearray(base)
-            self.sim = simh.sim_class(kind)(mem, None, None, {})
+            self.sim = simh.sim_class(kind)(mem, None, None, dict(fastcfg))
             self.mem = self.sim.memory
         else:
             banks = []
@@ -124,7 +127,7 @@ class Side:
                 m.roms = tuple(roms)
                 m.out7ffd(0)
                 self.mirror = [bytearray(b) for b in self.basebanks] + [bytearray(r) for r in self.baseroms]
-            cfg = {'frame_duration': 70908, 'int_active': 36}
+            cfg = dict({'frame_duration': 70908, 'int_active': 36}, **fastcfg)
             self.sim = simh.sim_class(kind)(m, None, None, cfg)
             self.mem = self.sim.memory
         self.tracer = None
@@ -275,10 +278,10 @@ class Side:
 
 
 class Pair:
-    def __init__(self, kinds, machine, with_tracer):
+    def __init__(self, kinds, machine, with_tracer, fast=False):
         self.kinds = kinds
         self.machine = machine
-        self.py = Side(kinds[0], machine, with_tracer)
+        self.py = Side(kinds[0], machine, with_tracer, fast)
         self.c = Side(kinds[1], machine, with_tracer)
         self.dirty_c = set()
         self.probed_at = 0
@@ -654,6 +657,49 @@ def run_static(pair, machine, letters, seq, im2, t0, interrupts, stats):
     return out
 
 
+def fast_cases():
+    """(name, register overrides, program) for the fast-loop part.  The block move / DJNZ sits at P = 0x8010 in a
+    field of NOPs; the destination window slides over the instruction itself (self-modification: the bytes stored
+    there are 0x3C = INC A, so whatever the overwritten code becomes still runs on to the stop address), the ROM/RAM
+    edge and the 64K edge."""
+    P = 0x8010
+    for iff in (0, 1):
+        for op, inc in ((0xB0, 1), (0xB8, -1)):
+            for bc in (1, 2, 3, 5, 0x100):
+                near = [P - 3, P - 2, P - 1, P, P + 1, P + 2, P + 3, P + 4, P + 5]
+                far = [0x9000, 0x3FFE, 0x4001, 0xFFFE, 0x0001]
+                for de in near + far:
+                    srcs = (0x9100,) if de in near else (0x9100, 0x3FFF, (de + 1) & 0xFFFF, (de - 1) & 0xFFFF)
+                    for hl in srcs:
+                        if bc == 0x100 and not (de == 0x9000 and hl == 0x9100):
+                            continue        # the long move: only away from the program
+                        name = '{} BC={} DE={:04X} HL={:04X} IFF={}'.format('LDIR' if inc > 0 else 'LDDR', bc, de, hl, iff)
+                        yield name, dict(B=bc >> 8, C=bc & 0xFF, D=de >> 8, E=de & 0xFF, H=hl >> 8, L=hl & 0xFF, IFF=iff), [(P, (0xED, op))]
+        for b in (1, 2, 3, 0):
+            for disp in (0xFE, 0xFD, 0x00, 0xFC):
+                name = 'DJNZ {:02X} B={} IFF={}'.format(disp, b, iff)
+                yield name, dict(B=b, IFF=iff), [(P, (0x10, disp))]
+        # DJNZ $ whose own displacement byte is overwritten by a preceding store
+        for a in (0x00, 0xFE, 0xFD):
+            yield 'LD (P+4),A;DJNZ A={:02X} IFF={}'.format(a, iff), dict(A=a, B=3, IFF=iff), [(P, (0x32, (P + 4) & 0xFF, (P + 4) >> 8)), (P + 3, (0x10, 0xFE))]
+
+
+def run_fast_case(pair, machine, regs_over, prog):
+    regs = regs_list(dict(INIT_REGS[0], **regs_over), machine)
+    regs[24] = 0x8008
+    pair.reset(regs)
+    pair.poke(0x8000, (0x00,) * 0x40)                       # NOP field
+    pair.poke(0x8040, (0xC3, STOP & 0xFF, STOP >> 8))       # JP STOP
+    pair.poke(0x90F0, (0x3C,) * 0x20)                       # the source bytes: INC A
+    for addr, ins in prog:
+        pair.poke(addr, ins)
+    try:
+        with core.watchdog(10, 'fast loop'):
+            return pair.run(0x8008, STOP, False), False
+    except core.Horizon:
+        return [], True
+
+
 def _shard(shard, nshards, tier, seed):
     stats = core.Stats(PROPERTY)
     quick = tier == 'quick'
@@ -729,6 +775,24 @@ def _shard(shard, nshards, tier, seed):
             elif i % 37 == 0:
                 stats.state(pair.canon())
         stats.nontriv(('B', ci))
+    # ---- part E: the Python simulators' fast DJNZ/LDIR/LDDR paths against the C simulators (run(start, stop) level)
+    ecases = list(fast_cases())
+    for machine, kinds in (('48K', ('py', 'c')), ('48K', ('pycmio', 'ccmio')), ('128K', ('py', 'c'))):
+        pair = Pair(kinds, machine, True, fast=True)
+        for i, (name, regs_over, prog) in core.shard_iter(ecases, shard, nshards):
+            d, horizon = run_fast_case(pair, machine, regs_over, prog)
+            stats.evaluations += 1
+            stats.transitions += 2
+            stats.counters['E_fast_loop_runs'] += 1
+            if horizon:
+                # a self-modifying program that never reaches the stop address on either side: not judged
+                stats.counters['E_horizon_not_judged'] += 1
+                pair = Pair(kinds, machine, True, fast=True)
+                continue
+            if d:
+                stats.violation('E/{}/{}/{}'.format(machine, kinds[1], name), {'part': 'E', 'machine': machine, 'kinds': list(kinds), 'name': name},
+                                '; '.join(d[:3]), tags={'part': 'E', 'machine': machine, 'pair': kinds[1]}, order=4 * 10**6 + i)
+        stats.nontriv(('E', machine, kinds))
     # ---- part C: tool level - trace.py with and without --python (same programs as C10)
     from . import c10
     from .. import tools
@@ -873,14 +937,16 @@ def run(tier, seed):
              'compared after every instruction: 30 registers, whole memory (all banks), latch/paged banks, port log, tracer state. '
              'B: static programs (all letter sequences up to length {}) under run(start, stop, interrupts) with the frame interrupt swept '
              'over the program, IM 1 and IM 2, and step-by-step == single run. states = distinct canonical (registers, memory, latch) '
-             'hashes reached. D: every (A, operand/F) tuple of every flag-table instruction (ALU A,r; CB rotates; RLCA..CCF; DAA; NEG; INC/DEC; BIT; RLD/RRD) on both pairs'.format(depth, 2),
+             'hashes reached. D: every (A, operand/F) tuple of every flag-table instruction (ALU A,r; CB rotates; RLCA..CCF; DAA; NEG; INC/DEC; BIT; RLD/RRD) on both pairs. E: the Python simulators configured with fast_djnz/fast_ldir (as trace.py and tap2sna do) against the C '
+             'simulators at run(start, stop) level: LDIR/LDDR x BC {{1,2,3,5,256}} x destination window sliding over the instruction itself, the ROM/RAM edge '
+             'and the 64K edge x sources (RAM, ROM, overlapping) x IFF 0/1; DJNZ x displacement x B; a DJNZ whose displacement byte is overwritten'.format(depth, 2),
         exhaustive=True,
         bound='A: depth 2 over all slot fillings (thorough: + depth 3 over one filling / unprefixed slots); B: sequence length 2',
         assumptions=['128K without a tracer is explored only with programs that do not write to ports (no tool runs that configuration; '
                      'C pages internally, Python delegates paging to the tracer)',
                      'single-step run(start) ignores interrupts in Python by construction; interrupt timing is compared through run(start, stop, True) '
                      'and accept_interrupt()'],
-        required_guards=['D_operand_sweep', 'D_arith16', 'D_table_units', 'C_tool_runs', 'B_runs', 'B_interrupt_taken', 'B_interrupts_im1', 'B_interrupts_im2', 'A_inner_states'],
+        required_guards=['E_fast_loop_runs', 'D_operand_sweep', 'D_arith16', 'D_table_units', 'C_tool_runs', 'B_runs', 'B_interrupt_taken', 'B_interrupts_im1', 'B_interrupts_im2', 'A_inner_states'],
     )
     return stats, meta
 
@@ -909,6 +975,13 @@ def replay(case):
             pair.poke(a, (v,))
         pair.poke(0x8000, tuple(case['code']))
         return pair.step()
+    if case['part'] == 'E':
+        pair = Pair(tuple(case['kinds']), case['machine'], True, fast=True)
+        for name, regs_over, prog in fast_cases():
+            if name == case['name']:
+                d, horizon = run_fast_case(pair, case['machine'], regs_over, prog)
+                return d
+        return ['unknown fast-loop case ' + case['name']]
     if case['part'] == 'C':
         from . import c10
         from .. import tools
